@@ -9,4 +9,9 @@ CLAIMS = {
         note="Trusted: reference reader + quoting-form table in mc/checks/c18.py; integers outside the digit-pattern domain are represented by their pattern class.",
         technique="bounded-exhaustive input enumeration on the real renderer against a reference parser",
     ),
+    "C02": dict(
+        text="Three exhaustive explorations on the real code. (a) Render histories: ~4400 objects (every seed of every builder/term family and each depth-1 successor) x 21 render operations (str, repr, get_sql under six dialect contexts inline and parameterised, get_parameterized_sql, hash, ==, fields_, tables_): each transition must leave the object graph unchanged and reproduce the output of a freshly built object; all ordered pairs and 3-fold repeats of render ops on the seeds. (b) Schedules: two real threads render one shared object under a controlled scheduler (sys.settrace line events as scheduling points, semaphore baton); every interleaving with <=1 preemption (thorough: 2, 3 threads, opcode granularity) is executed for 60 object/op-pairs, plus any corpus object whose render has a non-empty write set. (c) Configurations: all iteration orders of attribute-held sets; whole-corpus digests in subprocesses with PYTHONHASHSEED 1..7 (thorough 1..63 + seed-derived).",
+        note="Trusted: line-event granularity of the scheduler (GIL makes bytecodes atomic); hash seeds outside the swept list only matter for sets created and iterated inside one render; module-global writes without output change are reported, not failed.",
+        technique="explicit-state exploration of render-op histories + stateless schedule enumeration with preemption bounding (CHESS-style) on real threads + configuration enumeration",
+    ),
 }
